@@ -1168,6 +1168,157 @@ pub fn c07(seed: u64, budget: u64) -> FOut {
     out
 }
 
+/// C10: incarnation discipline, self-refutation, reaction to own death
+pub fn c10(seed: u64, budget: u64) -> FOut {
+    let mut out = FOut::default();
+    out.rule = "seeded histories (300 calls) over incarnations {0,1,2,2^15 boundary,MAX-1,MAX,random}, suspicions older/equal/newer than the own incarnation, the four renew kinds (none / bump / same / losing); monitors after every call: the own incarnation never decreases while the identity is kept (except reuse_down_identity), grows only when the input carried Suspect(self, i >= own) and then exceeds i, every header carries the current identity with an incarnation between the values before and after the call, no update ever leaves with an incarnation above the highest one told for that identity (0 for locally created Down records), and learning Down(self) (update, TurnUndead, Suspect at MAX) ends in a renewed winning identity with Rejoin or in Defunct - never still connected under the dead identity. distinct = histories with at least one self-suspicion and one Down(self)".into();
+    for h in 0..budget {
+        let hs = seed.wrapping_mul(2750159).wrapping_add(h);
+        let mut told: BTreeMap<VId, u16> = BTreeMap::new();
+        let mut hits: Vec<(String, J)> = vec![];
+        let (mut saw_susp, mut saw_down) = (false, false);
+        history(hs, 300, |c, _| { if c.max_packet_size < 64 { c.max_packet_size = 200; } }, |pre, input, effs, o, post, _rep| {
+            if let Input::ChangeIdentity(n) = input {
+                if n.a != pre.identity.a {
+                    return false;
+                }
+            }
+            let ctx = |w: &str| J::s(format!("{w} on {input:?} (history {hs}); identity {:?} inc {} -> {:?} inc {}", pre.identity, pre.incarnation, post.identity, post.incarnation));
+            // what the input tells
+            let mut self_updates: Vec<MMember> = vec![];
+            let mut note = |m: &MMember, told: &mut BTreeMap<VId, u16>| {
+                let e = told.entry(m.id).or_insert(0);
+                if m.inc > *e {
+                    *e = m.inc;
+                }
+            };
+            let mut turn_undead = false;
+            match input {
+                Input::Data(b) => {
+                    if let Some((hd, ups, _)) = split_datagram(b) {
+                        note(&MMember { id: hd.src, inc: hd.src_incarnation, state: 0 }, &mut told);
+                        let processed = hd.src.a != pre.identity.a && (hd.dst == pre.identity || (hd.message == foca::Message::Announce && hd.dst.a == pre.identity.a)) && b.len() as u128 <= pre.cfg.max_packet_size;
+                        let sender_rec = pre.members.iter().find(|m| m.id.a == hd.src.a);
+                        use foca::Identity;
+                        let sender_inactive = match sender_rec {
+                            Some(m) if m.id == hd.src => m.state == 2,
+                            Some(m) => m.id.win_addr_conflict(&hd.src),
+                            None => false,
+                        };
+                        if processed && hd.message == foca::Message::TurnUndead {
+                            turn_undead = true;
+                        }
+                        for u in ups {
+                            if let Ok(m) = dec_member(&mut &u[..]) {
+                                let mm = MMember::from(&m);
+                                note(&mm, &mut told);
+                                if processed && !sender_inactive && mm.id == pre.identity {
+                                    self_updates.push(mm);
+                                }
+                            }
+                        }
+                    } else {
+                        let mut buf = &b[..];
+                        if let Ok(hd) = dec_header(&mut buf) {
+                            note(&MMember { id: hd.src, inc: hd.src_incarnation, state: 0 }, &mut told);
+                            // the member section may have been decoded (and applied) even though
+                            // something after it is malformed: take whatever decodes
+                            if buf.len() >= 2 {
+                                let n = ((buf[0] as usize) << 8) | buf[1] as usize;
+                                buf = &buf[2..];
+                                for _ in 0..n {
+                                    match dec_member(&mut buf) {
+                                        Ok(m) => note(&MMember::from(&m), &mut told),
+                                        Err(_) => break,
+                                    }
+                                }
+                            }
+                        }
+                        return true;
+                    }
+                }
+                Input::ApplyMany(l, _) => {
+                    for m in l {
+                        note(m, &mut told);
+                        if m.id == pre.identity {
+                            self_updates.push(*m);
+                        }
+                    }
+                }
+                Input::Timer(MTimer::SuspectToDown(i, n, _)) => note(&MMember { id: *i, inc: *n as u16, state: 2 }, &mut told),
+                _ => {}
+            }
+            let same_id = pre.identity == post.identity;
+            // (a) monotone
+            if same_id && post.incarnation < pre.incarnation && !matches!(input, Input::ReuseDown) {
+                hits.push(("C10:incarnation-decreased".into(), ctx("decrease")));
+            }
+            // (b) growth cause
+            let relevant: Vec<&MMember> = self_updates.iter().filter(|m| m.state == 1 && m.inc as u128 >= pre.incarnation).collect();
+            if same_id && post.incarnation > pre.incarnation && relevant.is_empty() {
+                hits.push(("C10:incarnation-grew-without-suspicion".into(), ctx("growth")));
+            }
+            if !relevant.is_empty() {
+                saw_susp = true;
+            }
+            // (c) refutation: still the same identity and not defunct => strictly above every such suspicion
+            if same_id && post.conn != 2 {
+                for m in &relevant {
+                    if (m.inc as u128) < 65535 && post.incarnation <= m.inc as u128 && !self_updates.iter().any(|x| x.state == 2) {
+                        hits.push(("C10:suspicion-not-refuted".into(), ctx(&format!("suspected at {}", m.inc))));
+                    }
+                }
+            }
+            // (d) headers
+            for e in effs {
+                if let Eff::Send(_, b) = e {
+                    if let Some((hd, ups, _)) = split_datagram(b) {
+                        if hd.src == pre.identity && same_id && !((hd.src_incarnation as u128) >= pre.incarnation && (hd.src_incarnation as u128) <= post.incarnation) {
+                            hits.push(("C10:header-incarnation-not-current".into(), ctx(&format!("header inc {}", hd.src_incarnation))));
+                        }
+                        // (e) no fabrication
+                        for u in ups {
+                            if let Ok(m) = dec_member(&mut &u[..]) {
+                                let mm = MMember::from(&m);
+                                if mm.id.a == pre.identity.a {
+                                    continue; // own (former) identities: created locally at incarnation 0 or told
+                                }
+                                let t = told.get(&mm.id).copied();
+                                if t.map(|t| mm.inc > t).unwrap_or(true) {
+                                    hits.push(("C10:fabricated-incarnation".into(), ctx(&format!("sent {mm:?}, told {t:?}"))));
+                                }
+                            }
+                        }
+                    }
+                }
+            }
+            // (f) own death
+            let told_down = turn_undead || self_updates.iter().any(|m| m.state == 2 || (m.state == 1 && m.inc == 65535)) || (relevant.iter().any(|_| false));
+            if told_down && matches!(o, Outcome::Done | Outcome::Failed(_)) {
+                saw_down = true;
+                use foca::Identity;
+                let renewed = !same_id && post.identity.win_addr_conflict(&pre.identity) && effs.iter().any(|e| matches!(e, Eff::Notify(MNote::Rejoin(_))));
+                let defunct = post.conn == 2 && (effs.contains(&Eff::Notify(MNote::Defunct)) || pre.conn == 2);
+                if !(renewed || defunct) && matches!(o, Outcome::Done) {
+                    hits.push(("C10:carries-on-under-dead-identity".into(), ctx("Down(self)")));
+                }
+            }
+            hits.is_empty()
+        });
+        out.runs += 1;
+        if saw_susp && saw_down {
+            out.distinct.insert(h);
+        }
+        for (s, d) in hits.into_iter().take(2) {
+            out.hit(&s, d);
+        }
+        if h < 1 {
+            out.samples.push(J::s(format!("history seed {hs}")));
+        }
+    }
+    out
+}
+
 fn msg_kind(m: &foca::Message<VId>) -> &'static str {
     use foca::Message::*;
     match m {
@@ -1696,6 +1847,7 @@ pub fn run(prop: &str, seed: u64, budget: u64) -> Option<FOut> {
         "C07" => Some(c07(seed, budget)),
         "C15" => Some(c15(seed, budget)),
         "C12" => Some(c12(seed, budget)),
+        "C10" => Some(c10(seed, budget)),
         "C16" => Some(c16(seed, budget)),
         "C13" => Some(c13(seed, budget)),
         "C17" => Some(c17(seed, budget)),
